@@ -1,0 +1,17 @@
+//go:build verif
+
+package core
+
+// VerifLen returns the number of nodes in the list.
+func (l *List[T]) VerifLen() int {
+	if l.IsEmpty() {
+		return 0
+	}
+
+	var c int
+	for n := l.root.next; n != nil && n != &l.root; n = n.next {
+		c++
+	}
+
+	return c
+}
